@@ -414,6 +414,9 @@ func (ega *EnhancedGroupAggregator) AddPostAggregationExpression(outputField, or
 
 	// Add individual aggregation fields to the base aggregator (only if not already exists)
 	for _, field := range requiredFields {
+		// the expression evaluator registered below captures field: give every iteration its own
+		// copy (go.mod is below go 1.22, where the range variable is shared by all iterations)
+		field := field
 
 		// For parameterized functions, always recreate the aggregator with correct parameters
 		// even if it already exists (it was created with default parameters)
